@@ -22,6 +22,9 @@ def sample_value(p, i, dfmt):
 
 
 def audio_values(p, spec, n=None):
+  if spec["kind"] == "rec":       # what the fake input device delivers
+    return [float(k % 100) if spec["dfmt"] == "f" else k % 100
+            for k in range(n)]
   if spec["kind"] == "periodic":
     per = [sample_value(p, i, spec["dfmt"]) for i in range(spec["len"])]
     return [per[i % len(per)] for i in range(n)]
@@ -103,12 +106,16 @@ class C17(Property):
     gchunk = W.pick("gchunk", [None, None, 2, 4])
 
     def new_player():
-      kind = W.weighted("akind", [(5, "list"), (2, "gen"), (2, "periodic")])
+      kind = W.weighted("akind", [(10, "list"), (4, "gen"), (4, "periodic"),
+                                  (1, "rec")])
       cs = W.pick("cs", [1, 2, 3, 4, 8])
       ch = W.pick("ch", [1, 1, 2])
       dfmt = W.pick("dfmt", ["f", "h", "i", "b"])
       per = cs * ch
-      if kind == "periodic":
+      if kind == "rec":
+        ln = W.pick("rec_cs", [1, 2, 4])     # chunk size of the input device
+        dfmt = W.pick("rdfmt", ["f", "h"])
+      elif kind == "periodic":
         ln = W.span("plen", 1, 5)
       else:
         ln = W.weighted("alen", [
@@ -122,7 +129,7 @@ class C17(Property):
         spec["chunk_size"] = gchunk
       specs.append(spec)
       state[len(specs) - 1] = {"paused": False, "stopped": False,
-                               "endless": kind == "periodic"}
+                               "endless": kind in ("periodic", "rec")}
       script.append(["play", spec])
 
     for _ in range(min(nplayers, 1)):
@@ -290,6 +297,9 @@ class C17(Property):
                    ["rec_take", 3], play("list", 2)], wait=True),
       dict(script=[play("periodic", 2), play("list", 5, 2), ["stop", 0],
                    ["pause", 1], ["resume", 1]], wait=True),
+      # two recording streams open at shutdown, one of them looped to a player
+      dict(script=[["record", {"chunk_size": 2, "dfmt": "f"}],
+                   play("rec", 2), ["rec_take", 3], ["idle", 10]]),
     ]
     variants = [{"strategy": "random", "gap_max": 6, "line_budget": 30},
                 {"strategy": "sticky", "sticky_den": 8, "phase2_seeded": 200},
@@ -310,7 +320,7 @@ class C17(Property):
     specs = [op[1] for op in workload["script"] if op[0] == "play"]
     finite_chunks = 0
     for sp in specs:
-      if sp["kind"] != "periodic":
+      if sp["kind"] not in ("periodic", "rec"):
         per = sp["chunk_size"] * sp["channels"]
         finite_chunks += -(-sp["len"] // per)
     ctl = {"players": [], "stopped": set(), "pos": 0, "aio": None,
@@ -320,7 +330,7 @@ class C17(Property):
       if sched.phase != 1:
         return False
       for i, th in enumerate(ctl["players"]):
-        if specs[i]["kind"] == "periodic" and th is not None and \
+        if specs[i]["kind"] in ("periodic", "rec") and th is not None and \
            th._sim_thread.state != "finished":
           return True
       return False
@@ -365,6 +375,9 @@ class C17(Property):
     old_size = lio.chunks.size
 
     def make_audio(p, spec):
+      if spec["kind"] == "rec":
+        # input device looped to the output through the real RecStream
+        return ctl["aio"].record(chunk_size=spec["len"], dfmt=spec["dfmt"])
       if spec["kind"] == "list":
         return audio_values(p, spec)
       if spec["kind"] == "gen":
@@ -377,6 +390,8 @@ class C17(Property):
 
     def do_script(aio):
       ctl["aio"] = aio
+      if any(sp["kind"] == "rec" for sp in specs):
+        res.counters["probe.input-looped-to-output"] += 1
       burst = 0
       for pos, op in enumerate(workload["script"]):
         ctl["pos"] = pos
@@ -599,7 +614,7 @@ class C17(Property):
                    "want %d" % (p, wi, len(data), per * SIZEOF[fmt]))
         decoded.extend(struct.unpack("%d%s" % (per, fmt), data))
       nwr = len(st.writes)
-      if spec["kind"] == "periodic":
+      if spec["kind"] in ("periodic", "rec"):
         whole = None
         expect = audio_values(p, spec, len(decoded))
       else:
